@@ -177,7 +177,7 @@ Fixpoint get_obstacles (c : code) (os : list obst) (ks : list nat) (t : Z) : lis
   end.
 
 (* ------------------------------------------------------------------ lanelets, lights, network *)
-Definition fill_dists (l : lanelet) : lanelet := {| l_id := l_id l; l_dist := true; l_inner := l_inner l |}.
+Definition fill_dists (l : lanelet) : lanelet := {| l_id := l_id l; l_dist := true; l_inner := true |}.
 Definition fill_dist (l : lanelet) : lanelet := {| l_id := l_id l; l_dist := true; l_inner := l_inner l |}.
 
 Fixpoint cumsum (acc : Z) (l : list Z) : list Z :=
